@@ -118,7 +118,15 @@ def decider_state_scenario(h: Harness, rng):
             rep = cls(g, synth.make_decider("pigrow", d, shared, g), gene_length=64)
             genos = [rep.create_genotype(shared) for _ in range(h.n(10, 40))]
             first = {}
-            for rnd in range(2):
+            for rnd in range(3):
+                if rnd == 2:
+                    # the SAME decider object also builds a few trees for a tree-based representation in between (a user who
+                    # shares one decider between an initialiser and a genotype representation): what it did there is no
+                    # business of the next mapping
+                    from geneticengine.representations.tree.treebased import TreeBasedRepresentation
+                    tb = TreeBasedRepresentation(g, rep.decider)
+                    for _ in range(3):
+                        safe(lambda: tb.create_genotype(shared))
                 for gi, geno in enumerate(genos):
                     st, p = safe(lambda: rep.genotype_to_phenotype(geno))
                     res = sx(["ok", gram.canon(p, b)] if st == "ok" else ["err", p])
@@ -130,7 +138,8 @@ def decider_state_scenario(h: Harness, rng):
                     elif res != first[gi]:
                         h.fail(f"{name}.genotype_to_phenotype", "same-genotype-different-program",
                                f"PI-grow, concrete start symbol, max depth {d}: genotype #{gi} mapped to {first[gi][:120]} first and to {res[:120]} "
-                               f"after other genotypes had been mapped", [sx(line_spec), name, d, sx(dna)])
+                               f"after other genotypes had been mapped" + (" and the same decider object had built three trees for a tree-based representation" if rnd == 2 else ""),
+                               [sx(line_spec), name, d, sx(dna)])
                         break
             h.count("decider-state-scenarios")
 
